@@ -2926,9 +2926,6 @@ class Transport(threading.Thread, ClosingContextManager):
             # (also signal to packetizer as it sometimes wants to know this
             # status as well, eg when seqnos rollover)
             self.initial_kex_done = self.packetizer._initial_kex_done = True
-        # send an event?
-        if self.completion_event is not None:
-            self.completion_event.set()
         # it's now okay to send data again (if this was a re-key)
         if not self.packetizer.need_rekey():
             self.in_kex = False
@@ -2937,6 +2934,11 @@ class Transport(threading.Thread, ClosingContextManager):
             self.clear_to_send.set()
         finally:
             self.clear_to_send_lock.release()
+        # send an event?  (last: whoever waits for it, eg renegotiate_keys(),
+        # may start the next exchange right away, which must not be undone by
+        # the state changes above)
+        if self.completion_event is not None:
+            self.completion_event.set()
         return
 
     def _parse_disconnect(self, m):
